@@ -476,6 +476,17 @@ def write_replay(prop, tr, batch_seed, tier):
     return path
 
 
+def _lines_by_file(lines):
+    """distinct executed lines of tlexport/*.py in the sampled (1 in 40) traced runs of this batch"""
+    by = {}
+    for l in lines:
+        fn = l.rsplit(":", 1)[0]
+        by[fn] = by.get(fn, 0) + 1
+    by["_total"] = sum(by.values())
+    by["_note"] = "sys.settrace line events in a 1-in-40 sample of scenarios (first export of the scenario)"
+    return by
+
+
 def _jsonable(o):
     if isinstance(o, (bytes, bytearray)):
         return bytes(o).hex()
@@ -659,6 +670,7 @@ def write_evidence(prop, tier, batch_seed, agg, wall, n_viol, harness_errors, nl
         "other_counters": {k: v for k, v in sorted(agg["counters"].items())
                            if not k.startswith(("fault:", "reach:"))},
         "distinct": {k: len(v) for k, v in sorted(agg["sets"].items())},
+        "tlexport_lines_reached": _lines_by_file(agg["sets"].get("tlexport_lines", ())),
         "components": {
             "real_code": ["tlexport (imported from VERIF_REPO working tree, run via tlexport.main.run())", "dpkt",
                           "scapy", "cryptography/OpenSSL"],
